@@ -15,6 +15,7 @@ def gen_script(rng, nops):
         lines.append('reg %d %d' % (p, rng.below(64)))       # every subset of the optional functions, default value on/off
     lines.append('update')
     njobs = 0
+    jobs_meta = []
     for _ in range(rng.range(0, 3)):
         k = rng.range(1, 2)
         reqs = []
@@ -24,6 +25,7 @@ def gen_script(rng, nops):
             reqs[0] = reqs[0].split(':')[0] + ':1'
         chk = [r.split(':')[0] for r in reqs if rng.chance(1, 3)]
         lines.append('mkjob 1 %s%s' % (' '.join(reqs), (' c ' + ' '.join(chk)) if chk else ''))
+        jobs_meta.append((set(int(r.split(':')[0]) for r in reqs if int(r.split(':')[1]) & 2 == 0), bool(chk)))
         njobs += 1
     n = 0
     comps = {}
@@ -32,7 +34,23 @@ def gen_script(rng, nops):
         live = sorted(comps)
         c = rng.weighted([('createarch', 26), ('assignid', 16 if live else 0), ('removeid', 10 if live else 0), ('set', 12 if live else 0),
                           ('getconst', 6 if n else 0), ('has', 5 if n else 0), ('destroynow', 8 if live else 0), ('destroy', 4 if live else 0),
-                          ('update', 6), ('runjob', 18 if njobs else 0)])
+                          ('update', 6), ('runjob', 18 if njobs else 0), ('jobdo', 8 if njobs else 0)])
+        if c == 'jobdo':
+            # a C job whose callback creates an entity from an archetype and assigns another component to it (both deferred)
+            ok = [j for j, (need, chk_) in enumerate(jobs_meta) if not chk_ and any(need <= comps[h] for h in live if h not in marked)]
+            if ok:
+                j = rng.pick(ok)
+                cs = sorted(set(rng.pick(pals) for _ in range(rng.range(1, 2))))
+                lines.append('jobdo createarch 0 ' + ' '.join(map(str, cs)))
+                comps[n] = set(cs)
+                cand = [p for p in pals if p not in comps[n]]
+                if cand and rng.chance(2, 3):
+                    p = rng.pick(cand)
+                    lines.append('jobdo assignid 0 #%d %d %s' % (n, p, rng.pick(['-', str(rng.range(1, 900))])))
+                    comps[n].add(p)
+                n += 1
+                lines.append('runjob %d 0' % j)
+            continue
         if c == 'createarch':
             cs = sorted(set(rng.pick(pals) for _ in range(rng.range(0, 3))))
             lines.append(('createarch 0 ' + ' '.join(map(str, cs))).rstrip()); comps[n] = set(cs); n += 1
@@ -114,6 +132,11 @@ def run(tier, seed, replay=None):
     nrm = {'R': norm_R}
     fa = emcmp.compare(capi, cpp, ['R', 'H'], extra_norm=nrm)          # the property itself: C interface vs C++ interface
     div = emcmp.compare(capi, model, ['R', 'H'], extra_norm=nrm)
+    # bytes nobody wrote (a described component without create function and default value) are indeterminate: the model prints
+    # them as '*'.  A C / C++ difference in such a cell is not a difference of behaviour: keep only those the model does not explain
+    div_cpp = emcmp.compare(cpp, model, ['R', 'H'], extra_norm=nrm)
+    unexplained = set((d['script'], d['opn'], d['tag']) for d in div + div_cpp)
+    fa = [f for f in fa if (f['script'], f['opn'], f['tag']) in unexplained]
     sd = dict(scripts)
     finals = set('\n'.join(b[-1]['tags'].get('H', [])) for n_, b in capi if b)
     cov.update({'evaluations': len(scripts), 'distinct_nontrivial': len(finals), 'ops': sum(len(v) for v in sd.values()),
